@@ -14,7 +14,7 @@
   (A) universal theorems (this file):
       MIPS (mips, mipsel): addu subu and or xor nor (incl. capstone's move/negu forms) · sll srl sra (and nop) · sllv srlv srav ·
       addiu andi ori xori · lui · slt sltu slti sltiu · movn movz · mfhi mflo mthi mtlo · mult multu mul · lb lbu lh lhu lw · sb sh sw ·
-      lwl lwr in both byte orders · add addi sub (both paths: `lift_correct_single` without overflow, `lift_overflow_stops` with) ·
+      lwl lwr in both byte orders · swl swr in both byte orders (`lift_correct_swl_swr`) · add addi sub (both paths: `lift_correct_single` without overflow, `lift_overflow_stops` with) ·
       beq bne bgez bgtz blez bltz b j, each with ANY of the above in the delay slot (`lift_correct_pair`).
       PowerPC (every mnemonic the dispatcher lifts except bdnzl and the conditional bclr forms): addi/li addis/lis · add subf addze
       (with Rc) · mr · nop · rlwinm/slwi (with Rc) · srawi (with Rc) · cmpwi cmplwi · lbz lwz lwzu · stw stwu stmw · mflr mtlr mtctr ·
@@ -22,7 +22,7 @@
   (B) none.
   (C) differential only (`unproved_classes` in the evidence):
       MIPS: div divu (zero divisor: finding) · madd maddu msub msubu · clz clo (loop graphs) ·
-      swl swr (mirrored, not proved) ll sc pref sync · teq syscall break rdhwr · jr jal jalr bal bgezal bltzal (known findings: target /
+      ll sc pref sync · teq syscall break rdhwr · jr jal jalr bal bgezal bltzal (known findings: target /
       condition / link evaluated AFTER the delay slot).   PowerPC: bdnzl (finding: lifted as nop), conditional bclr.
 
   `StateOK σ`: the IL state defines `$at…$ra`, `$hi`, `$lo` as reduced 32-bit constants.  `absState σ` is the machine state
@@ -35,6 +35,7 @@ import FalconProofs.C02.PpcMask
 import FalconProofs.C02.PpcTop
 import FalconProofs.C02.Jr
 import FalconProofs.C02.Unaligned
+import FalconProofs.C02.UnalignedStore
 
 namespace Falcon.C02
 open Falcon Falcon.Isa.Mips
@@ -149,6 +150,37 @@ theorem lift_overflow_stops (big : Bool) (w : Word) (addr : Nat) (r : BTR) (σ :
         cases op <;> simp only [doLoad] at hx <;> (repeat' split at hx) <;> first | (cases hx; done) | (injection hx with hx; cases hx)
       · cases hl
 
+/-- **swl / swr, both byte orders, all fields, all states.**  The lifted IL reads the aligned word, merges rt into it and writes
+    it back; the manual writes only the 1–4 addressed bytes.  Extra premise `hm`: the aligned word around the address is mapped
+    (otherwise the IL's read fails where the manual's store succeeds).  Under it the lifted block yields exactly the
+    interpreter's memory, registers and next pc.  (Seeded C02-m3 — little-endian swr/lwr counting bytes from the wrong end —
+    contradicts this theorem and `lift_correct_single`.) -/
+theorem lift_correct_swl_swr (big : Bool) (w : Word) (addr : Nat) (r : BTR) (σ : State) (op : St') (rt base : Reg) (off : BitVec 16)
+    (hd : decode w = some (.store op rt base off)) (hop : op = .swl ∨ op = .swr)
+    (hl : liftBTRall big [w] addr = some r) (ha : addr + 4 < 2 ^ 32) (hσ : StateOK σ) (hend : (absState σ).bigEndian = big)
+    (m : Word) (hm : rdWord (absState σ).bigEndian (absState σ).mem (((absState σ).r base + sext16 off) &&& ~~~3) = some m)
+    (s' : St) (pc' : Word) (u : Bool) (hx : step w (BitVec.ofNat 32 addr) (absState σ) = .next s' pc' u) :
+    ∃ σ', runBTR r σ = .next σ' [pc'.toNat] ∧ StateOK σ' ∧ Eqv u (absState σ') s' ∧ σ'.endian = σ.endian := by
+  have hf : ∃ f, liftUnaligned big (.store op rt base off) addr = some f ∧
+      r = { addr := addr, length := 4, instrs := [f], succs := [(addr + 4, none)] } := by
+    rcases hop with h | h <;> subst h <;>
+      simp [liftBTRall, liftBTR, hd, liftSingle, liftI, Instr.isBranch, liftUnalignedSingle, liftUnalignedStoreSingle,
+        Option.orElse] at hl <;>
+      (obtain ⟨f, h1, h2⟩ := hl; exact ⟨f, h1, h2.symm⟩)
+  obtain ⟨f, hf, hr⟩ := hf
+  subst hr
+  simp only [step, hd] at hx
+  rw [if_neg (by simp [Instr.isBranch])] at hx
+  obtain ⟨hent, σ', hrun, hsim, hpc⟩ := unaligned_store_ok big op rt base off addr f σ _ s' pc' u hf hσ hend m hm hx
+  refine ⟨σ', ?_, hsim.ok, hsim.eqv, hsim.endian⟩
+  simp only [runBTR]
+  rw [go_cons_done _ _ f [] σ σ' hent hrun, go_nil_one _ _ σ' (addr + 4) none rfl]
+  subst hpc
+  congr 2
+  have h4 : (4 : Word).toNat = 4 := rfl
+  simp only [BitVec.toNat_add, BitVec.toNat_ofNat, h4]
+  omega
+
 /-- the decision of a (non-linking) branch is taken in the pre-state: whatever the slot does, the next pc is the
     target iff the condition held BEFORE the slot -/
 theorem branch_decided_before_slot (b d : Isa.Mips.Instr) (pc : Word) (s s' : St) (pc' : Word) (u : Bool) (taken : Bool) (target : Word)
@@ -218,6 +250,8 @@ example : (liftBTR true [0x70851002#32] 0x1000).isSome = true := by decide      
 example : (liftBTR true [0x00851022#32] 0x1000).isSome = true := by decide       -- sub $v0, $a0, $a1
 example : (liftBTR false [0x88820003#32] 0x1000).isSome = true := by decide      -- lwl $v0, 3($a0) (mipsel)
 example : (liftBTR true [0x98820003#32] 0x1000).isSome = true := by decide       -- lwr $v0, 3($a0) (mips)
+example : (liftBTRall false [0xa8820003#32] 0x1000).isSome = true := by decide   -- swl $v0, 3($a0) (mipsel)
+example : (liftBTRall true [0xb8820000#32] 0x1000).isSome = true := by decide    -- swr $v0, 0($a0) (mips)
 example : (liftBTR false [0x20820001#32] 0x1000).isSome = true := by decide      -- addi $v0, $a0, 1
 example : (liftBTR true [0x0085100b#32] 0x1000).isSome = true := by decide       -- movn $v0, $a0, $a1
 example : (liftBTR true [0x00001010#32] 0x1000).isSome = true := by decide       -- mfhi $v0
